@@ -193,6 +193,24 @@ class Check:
         return (1 if new else 0), new, listed
 
 
+class Relabel:
+    """re-labels the obligations of a rule shared between two properties"""
+    def __init__(self, chk, rule):
+        self._chk, self._rule = chk, rule
+
+    def ob(self, rule, *a, **k):
+        return self._chk.ob(self._rule, *a, **k)
+
+    def floor(self, rule, *a, **k):
+        return self._chk.floor(self._rule, *a, **k)
+
+    def clause(self, *a, **k):
+        pass
+
+    def __getattr__(self, n):
+        return getattr(self._chk, n)
+
+
 def load_known(prop=None):
     """known_findings.json: {"findings": [{property, key, what, witness}], "fixed": [...]}.
     Only `findings` entries suppress; `fixed` entries suppress nothing."""
